@@ -142,6 +142,13 @@ def check(chk):
                                          call_attr(n.ast.value) == "deepcopy" and inloop(n.ast))]
     lsaves = [(n, c) for n, c in cfg.calls_named("save") if "FileManager" in src(c.func.value) and inloop(c)]
     chk.need(lsaves, "FLOW-6", "the writer loop saves the data (FileManager.save)", t)
+    # once the notification is consumed (flag cleared) the snapshot is written, whatever it contains: no path from the clear back to the wait
+    # (or out of the loop) avoids the save - an empty snapshot is a save like any other ("reset the earnings" must reach the disk)
+    jh = [h for h in cfg.nodes if h.kind == "join" and h.ast is loop]
+    for cl in clears:
+        w_ = cfg.path_avoiding(cl.id, [h.id for h in jh] + [cfg.exit.id], [n.id for n, c in lsaves], ignore_exc=True) if jh else [cl.id]
+        chk.ob("FLOW-6", "after the dirty flag was cleared every path of the writer loop reaches the write (no snapshot is skipped)", w_ is None, t.where(cl.ast),
+               construct=t.ident, text="snapshot skipped after the flag was cleared", path=cfg.fmt_path(w_, t) if w_ and len(w_) > 1 else None, nontrivial=True)
     ok = bool(clears) and bool(copies) and cfg.dominates(clears[0].id, copies[0].id) and all(cfg.dominates(copies[0].id, n.id) for n, c in lsaves)
     chk.ob("FLOW-6", "the writer clears the dirty flag, then takes the snapshot, then writes it", ok, t.where(),
            detail="clearing after the write discards the notification of a save that arrived during the write: the newer data is never written",
@@ -457,6 +464,7 @@ def expiry_restart_is_written(chk, repo, rule="FLOW-6"):
 def battery():
     from sa.battery import M
     return [
+        M("empty snapshot treated as nothing to write", "mpf/core/data_manager.py", "            data = copy.deepcopy(self.data)\n            # save data\n", "            data = copy.deepcopy(self.data)\n            if not data:\n                continue\n            # save data\n", "FLOW-6"),
         M("pattern removal written only when the last match was persistent", "mpf/core/machine_vars.py", "                del self.machine_vars[var]\n\n        self._write_machine_vars_to_disk()", "                persisted = self.machine_vars.pop(var)['persist']\n\n        if persisted:\n            self._write_machine_vars_to_disk()", "FLOW-6"),
         M("a leftover temp file blocks every later save", "mpf/core/file_manager.py", "            temp_file = os.path.dirname(filename) + os.sep + \"_\" + os.path.basename(filename)\n", "            temp_file = os.path.dirname(filename) + os.sep + \"_\" + os.path.basename(filename)\n            if os.path.exists(temp_file):\n                raise AssertionError(\"busy\")\n", "PAIR-17"),
         M("target removed before the temp file is moved in", "mpf/core/file_manager.py", "            os.replace(temp_file, filename)", "            if os.path.exists(filename):\n                os.remove(filename)\n            os.rename(temp_file, filename)", "PAIR-17"),
